@@ -15,7 +15,10 @@ RenderOK(e) == LET s == Sc(e) IN
   /\ e.out \in Outcomes(s)
   /\ (e.out = "ok" =>
         /\ \A f \in ToSet(e.fields) :
-              (f = "run_type" /\ Source(s, f) = "attr" /\ Keyword(s.prog, s.rt[1]) = "?") \/ e.text[f] = ExpectedText(s, f)
+              \/ (f = "run_type" /\ Source(s, f) = "attr" /\ Keyword(s.prog, s.rt[1]) = "?")
+              \* the wording of the default title is not part of the property (no documented default): any text will do
+              \/ (f = "title" /\ Source(s, f) = "default" /\ e.text[f] # "<missing>")
+              \/ e.text[f] = ExpectedText(s, f)
         /\ (s.extra \in {"given", "empty"} => e.extra_text = ExtraText(s))
         \* geometry: one line per atom, in order, right symbol, coordinates in angstrom
         /\ e.geom.nlines = e.geom.natom /\ e.geom.symbols_ok /\ e.geom.coords_ok)
